@@ -333,3 +333,82 @@ R.contract(
                  "forall(r, 0 <= r < len(order0), exists(p, 0 <= p < len(head), head[p] == order0[r]) or exists(q, 0 <= q < len(tail), tail[q] == order0[r]))"]},
     post_setup=["lemma_concat_occurs(result, head, tail)", "lemma_onto_compose(result, order0, len(items))"],
 )
+
+# ------------------------------------------------------------------ lexical fusion (quality_ops.fuse): only permutes
+QOPS = "clematis/engine/stages/t2/quality_ops.py:"
+R.untype("FId", strlike=True)
+R.dictlike("FuseItem", {"id": "Un[FId]", "score?": "float", "text?": "str"})
+R.dictlike("FusedItem", {"id": "Un[FId]", "score?": "float", "text?": "str", "score_fused": "float"})
+_FSCORE = "(alpha * sem_rr.get(items[%(j)s]['id'], 0.0) + (1.0 - alpha) * lex_rr.get(items[%(j)s]['id'], 0.0))"
+R.contract(
+    QOPS + "fuse", "C11", name="fuse[interpolate-and-sort region]", callee=False,
+    region=("fused: List[Dict[str, Any]] = []", "fused.sort(key="),
+    types={"query": "str", "items": "List[FuseItem]", "cfg": "None", "sem_rr": "Dict[Un[FId], float]", "lex_rr": "Dict[Un[FId], float]",
+           "alpha": "float"},
+    ensures=[
+        ("same-length", "len(fused) == len(items)"),
+        ("every-output-is-an-input-plus-fused-score",
+         "forall(i, 0 <= i < len(fused), exists(j, 0 <= j < len(items), fused_of(fused[i], items[j]) and fused[i]['score_fused'] == " + _FSCORE % {"j": "j"} + "))"),
+        ("every-input-occurs-in-output", "forall(j, 0 <= j < len(items), exists(i, 0 <= i < len(fused), fused_of(fused[i], items[j])))"),
+        ("distinct-ids-stay-distinct",
+         "implies(forall2(a, b, 0 <= a and a < b and b < len(items), items[a]['id'] != items[b]['id']), "
+         "forall2(a, b, 0 <= a and a < b and b < len(fused), fused[a]['id'] != fused[b]['id']))"),
+        ("ordered-by-fused-score-desc-then-id",
+         "forall2(a, b, 0 <= a and a < b and b < len(fused), (0 - fused[a]['score_fused'], fused[a]['id']) <= (0 - fused[b]['score_fused'], fused[b]['id']))"),
+        ("input-untouched", "seq_eq(items, old(items))"),
+    ],
+    raises="none",
+    loops={0: {"inv": [
+        "len(fused) == _i",
+        "forall(j, 0 <= j < _i, fused_of(fused[j], items[j]) and fused[j]['score_fused'] == " + _FSCORE % {"j": "j"} + ")",
+    ]}},
+    locals={"fused": "List[FusedItem]"},
+)
+
+# ------------------------------------------------------------------ hybrid graph rerank (hybrid.rerank_with_gel): only permutes
+HY = "clematis/engine/stages/hybrid.py:"
+for _n in ("GItem", "EdgeRec", "GelCtx", "GelState"):
+    R.untype(_n)
+R.untype("GId", strlike=True)
+EDGES = "Dict[str, Un[EdgeRec]]"
+R.dictrec("HybridCfg", {"enabled": "bool", "use_graph": "bool", "anchor_top_m": "int", "walk_hops": "int", "edge_threshold": "float",
+                        "lambda_graph": "float", "damping": "float", "degree_norm": "str", "max_bonus": "float", "k_max": "int"})
+R.dictrec("GelGraph", {"edges": EDGES})
+# assumed: _hybrid_cfg returns a dict with all ten keys (it setdefault()s each of them); _graph_store returns the edge table
+R.contract(HY + "_hybrid_cfg", "C11", verify=False, types={"ctx": "Un[GelCtx]"}, returns="HybridCfg")
+R.contract(HY + "_graph_store", "C11", verify=False, types={"state": "Un[GelState]"}, returns="GelGraph")
+# item adapters and graph readers are seen as functions of their arguments (scores never matter for "only permutes")
+R.opaque(HY + "_get_id", "gel_id", ["Un[GItem]"], "Un[GId]")
+R.opaque(HY + "_get_sim", "gel_sim", ["Un[GItem]"], "float")
+R.opaque(HY + "_edge_weight", "gel_edge_w", [EDGES, "Un[GId]", "Un[GId]"], "float")
+R.opaque(HY + "_degree", "gel_degree", [EDGES, "Un[GId]", "float", "Set[Un[GId]]"], "int")
+_K = "min(len(items), cfg['k_max'])"
+R.contract(
+    HY + "rerank_with_gel", "C11",
+    types={"ctx": "Un[GelCtx]", "state": "Un[GelState]", "items": "List[Un[GItem]]"},
+    ensures=[
+        ("same-length", "len(result[0]) == len(items)"),
+        ("every-output-is-an-input", "forall(i, 0 <= i < len(result[0]), exists(j, 0 <= j < len(items), result[0][i] == items[j]))"),
+        ("every-input-occurs-in-output",
+         "forall(j, 0 <= j < len(items) and trig(j), exists(i, 0 <= i < len(result[0]), result[0][i] == items[j]))"),
+        ("top-1-fixed", "implies(len(items) > 0, result[0][0] == items[0])"),
+        ("tail-beyond-k-max-untouched", "forall(i, " + _K + " <= i and 0 <= i and i < len(items), result[0][i] == items[i])"),
+        ("reorders-only-inside-top-k", "forall(i, 0 <= i < " + _K + ", exists(j, 0 <= j < " + _K + ", result[0][i] == items[j]))"),
+        ("disabled-is-identity", "implies(not cfg['enabled'] or not cfg['use_graph'], seq_eq(result[0], items))"),
+        ("input-untouched", "seq_eq(items, old(items))"),
+    ],
+    raises="none",
+    loops={0: {"inv": []}, 1: {"inv": []}, 2: {"inv": []}, 3: {"inv": []}, 4: {"inv": []}, 5: {"inv": []}, 6: {"inv": []},
+           7: {"inv": ["len(hybrid_scores) == _i"]}},
+    locals={"edges": EDGES, "best_aw": "Dict[Un[GId], float]", "deg_cache": "Dict[Un[GId], int]",
+            "hybrid_scores": "List[Tuple[float, Un[GId], int]]", "acc": "float", "best": "float", "best_path": "float", "bonus": "float"},
+    asserts={
+        "order": [
+            "len(order) == k_considered and order[0] == 0",
+            "forall(i, 1 <= i < len(order), 1 <= order[i] and order[i] < k_considered)",
+            "forall(j, 1 <= j < k_considered and trig(j) and trig(j - 1), exists(i, 1 <= i < len(order), order[i] == j))",
+        ],
+    },
+    feas_timeout_ms=60, named_seqs=True,
+    unreachable_ok=["order = [0]"],   # the `else: order = [0]` arm is dead code: k_considered <= 1 returned earlier
+)
